@@ -193,6 +193,7 @@ func runCell(c *common.Ctx, cl cell, r *common.Rand, cf *common.CaseFile) error 
 	// what was offered to the replica, in order
 	var obs []uint64
 	sawSnapshot := false
+	var snapMax uint64
 	for _, call := range osR.Snapshot() {
 		if call.Op == "PROCESSLTX" && call.Fn == "rename" {
 			mn, _, err := ltx.ParseFilename(filepath.Base(call.Name2))
@@ -202,6 +203,8 @@ func runCell(c *common.Ctx, cl cell, r *common.Rand, cf *common.CaseFile) error 
 			if mn == 1 {
 				obs = append(obs, 2)
 				sawSnapshot = true
+				_, mx, _ := ltx.ParseFilename(filepath.Base(call.Name2))
+				snapMax = uint64(mx)
 			} else {
 				obs = append(obs, 1, uint64(mn))
 			}
@@ -227,7 +230,43 @@ func runCell(c *common.Ctx, cl cell, r *common.Rand, cf *common.CaseFile) error 
 	if notOnHistory && pPos.TXID > 0 && (len(obs) < 2 || obs[0] != 2) {
 		c.Violate(key("patched"), fmt.Sprintf("replica at (%d,%016x), not on the primary's history, was brought to (%d,%016x) with %v (1,t = incremental file t; 2 = snapshot) instead of a snapshot first", rPos.TXID, rPos.Chk, pPos.TXID, pPos.Chk, obs), rep("patched"))
 	}
-	_ = sawSnapshot
+	// a snapshot discards the old chain: what is left is the snapshot and what the primary sent after it, so a
+	// restart (with the primary out of reach) comes up on the primary's history too
+	if sawSnapshot {
+		rFiles, _ := lfs.ListLTX(filepath.Join(rn.Dir, "dbs", "db"))
+		for _, f := range rFiles {
+			ok := f.Min == 1 && f.Max == snapMax
+			if f.Min > snapMax {
+				for _, g := range pFiles {
+					if f.Min == g.Min && f.Max == g.Max && f.Pre == g.Pre && f.Post == g.Post {
+						ok = true
+					}
+				}
+			}
+			if !ok && f.Valid {
+				c.Violate(key("old-chain-kept"), fmt.Sprintf("the replica (was at (%d,%016x)) was resnapshotted (1-%d) to the primary's position (%d,%016x) but its log still holds %s (%d-%d, post %016x)", rPos.TXID, rPos.Chk, snapMax, pPos.TXID, pPos.Chk, f.Name, f.Min, f.Max, f.Post), rep("old-chain-kept"))
+				break
+			}
+		}
+		rn.Stop()
+		solo := cluster.New(dir, 2*time.Second)
+		sn, err := solo.Start("r", false)
+		if err != nil {
+			c.Violate(key("restart"), fmt.Sprintf("the resnapshotted replica cannot restart: %v", err), rep("restart"))
+			return nil
+		}
+		got := dbPos(sn.Store)
+		im, _ := lfs.ReadImage(filepath.Join(sn.Dir, "dbs", "db"))
+		sn.Stop()
+		c.Evaluations++
+		if got != pPos {
+			c.Violate(key("restart-position"), fmt.Sprintf("the resnapshotted replica restarts at (%d,%016x), not at the position it had reached (%d,%016x)", got.TXID, got.Chk, pPos.TXID, pPos.Chk), rep("restart-position"))
+		} else if pImage != nil && im != nil {
+			if eq, why := im.Equal(pImage); !eq {
+				c.Violate(key("restart-image"), "the resnapshotted replica restarts with a different database: "+why, rep("restart-image"))
+			}
+		}
+	}
 	// correspondence case for Model/Repl.v
 	var fs []string
 	for _, f := range pFiles {
@@ -323,6 +362,11 @@ func forged(c *common.Ctx, r *common.Rand) error {
 	cases := []tc{
 		{"min-too-high", good(pos.TXID+2, pos.TXID+2, pos.Chk)},
 		{"min-too-low", good(pos.TXID, pos.TXID, pos.Chk)},
+		// files that cover several transactions: only the first transaction id decides whether a file extends the position
+		{"range-overlapping-by-one", good(pos.TXID, pos.TXID+1, pos.Chk)},
+		{"range-overlapping-by-two", good(pos.TXID-1, pos.TXID+1, pos.Chk)},
+		{"range-from-one-without-being-a-snapshot", good(1, pos.TXID+1, pos.Chk)},
+		{"range-with-a-gap", good(pos.TXID+2, pos.TXID+3, pos.Chk)},
 		{"wrong-pre-checksum", good(pos.TXID+1, pos.TXID+1, pos.Chk^0x55)},
 		{"corrupt-body", corrupt},
 		{"truncated", good(pos.TXID+1, pos.TXID+1, pos.Chk)[:ltx.HeaderSize+30]},
@@ -376,7 +420,7 @@ func forged(c *common.Ctx, r *common.Rand) error {
 		}
 	}
 	// ---- the same on the replication stream: a replica connected to a primary that offers bad files ----
-	for _, t := range cases[:4] {
+	for _, t := range []tc{cases[0], cases[1], cases[6], cases[7]} {
 		if err := badStream(c, r, dir, t.name, ps); err != nil {
 			return err
 		}
